@@ -1062,6 +1062,9 @@ func (l *LineWrapper) wrapNextLine(config lineConfig) (done bool) {
 		switch result, candidateRun := l.processBreakOption(option, config); result {
 		case breakInvalid:
 			l.restore()
+			// Forget this option, so that the grapheme boundaries before it are still
+			// considered between the previous valid option and the next one.
+			l.breaker.unusedWordBreak = l.breaker.previousWordBreak
 			continue
 		case fits:
 			l.scratch.markCandidateBest(candidateRun)
